@@ -199,6 +199,10 @@ def run(chk, replay=None):
         if kind == 'L' and (t // 4) % 2 == 1 and not f32:
             # a forecast expecting about one event: the L-test then also simulates empty catalogs (statistic -N_fore)
             data = data * (rng.choice([0.7, 1.3]) / data.sum())
+        near = t in (9, 10, 13) and not f32
+        if near:
+            # a forecast whose total is ALMOST the observed number (a relative 6e-6 away): the S- and M-test still rescale it
+            data = data * (240 * (1 + [6.25e-6, -4e-6, 9e-6][t % 3]) / data.sum())
         ids = {}
         rid = [[0] * nb for _ in range(nc)]
         for c in range(nc):
@@ -208,6 +212,8 @@ def run(chk, replay=None):
         rates = {i: Fraction(v) for v, i in ids.items()}
         # observed catalog: events only in positive-rate bins mostly; sometimes in a zero-rate bin
         n_obs = rng.choice([0, 1, 2, 5, 30, 150 if not quick else 60])
+        if near:
+            n_obs = 240
         w = [[0] * nb for _ in range(nc)]
         pos = [(c, b) for c in range(nc) for b in range(nb) if data[c, b] > 0]
         zer = [(c, b) for c in range(nc) for b in range(nb) if data[c, b] == 0]
